@@ -59,7 +59,8 @@ def origin_var(fn, o, depth=8):
                 # remember the field path
                 pass
             o = nxt
-        elif k == "call" and srcs and re.search(r"(Deref(Mut)?>::deref(_mut)?|::as_ref|::as_mut|::as_str|::as_slice|::borrow|::clone)$", node.get("fp", "")):
+        elif k == "call" and srcs and re.search(r"(Deref(Mut)?(>)?::deref(_mut)?|::as_ref|::as_mut|::as_str|::as_slice|::as_mut_slice|::borrow|::borrow_mut|::clone)$",
+                                                  node.get("rn") or node.get("fp", "")):
             o = srcs[0]
         else:
             break
